@@ -12,7 +12,7 @@ META = {
     "shards": {"quick": 16, "thorough": 8},
     "exhaustive_within_bound": True,
     "bounds": {
-        "quick": "all DAGs on N=4 ordered names (every forward edge symbolic, all nodes present, symbolic types in {input, buf, and, bb_input, bb_output, 0} and output flags); all digraphs without self-loops on 3 names for is_cyclic / topo_sort / the depth functions' and levelize's rejection of cycles; arguments: every single node, 3 node pairs, k in {1,2,3}",
+        "quick": "fanin_depth/fanout_depth on all DAGs over 5 ordered names; every query on all DAGs on N=4 ordered names (every forward edge symbolic, all nodes present, symbolic types in {input, buf, and, bb_input, bb_output, 0} and output flags); all digraphs without self-loops on 3 names for is_cyclic / topo_sort / the depth functions' and levelize's rejection of cycles; arguments: every single node, 3 node pairs, k in {1,2,3}",
         "thorough": "DAGs on N=5 names, digraphs on 4 names; fanin_depth/fanout_depth additionally on all DAGs over 6 names",
     },
     "outside": ["graphs with more nodes", "minimum=True variants of the depth functions", "Circuit.paths", "the networkx primitives themselves: ancestors/descendants/topological_sort/is_directed_acyclic_graph are harness stubs here, so what is verified is the wrapper logic (which primitive, union over argument lists, str-vs-list handling) and the custom algorithms (depth, levelize, reconvergence, kcuts, startpoints/endpoints); most paths pin every edge bit the query depends on, so the solver mainly confirms per path"],
@@ -44,6 +44,13 @@ def all_cases(ctx):
     N = 4 if ctx.quick else 5
     M = 3 if ctx.quick else 4
     cs = []
+    if ctx.quick:
+        # the custom longest-path visit is order sensitive: depth functions also on all DAGs over 5 ordered names
+        U5 = [f"n{i}" for i in range(5)]
+        for q in (("fanout_depth", "n0"), ("fanin_depth", "n4")):
+            sb = 6
+            for k in [int(format(k, f"0{sb}b")[::-1], 2) for k in range(1 << sb)]:
+                cs.append(((True, 5, q[0], repr(q[1]), k), (True, U5, q, sb, k)))
     if not ctx.quick:
         # depth functions on ALL DAGs over 6 ordered names (32768 edge patterns): the custom longest-path visit is order sensitive
         U6 = [f"n{i}" for i in range(6)]
